@@ -446,6 +446,36 @@ def register_map(rep, idx, ctor, roles):
             ok = len(fields) == 1 and fields[0][2] and oa2 is not None and ir.show(fields[0][2][0]).split(".")[-1] == oa2.name
             rep.check(ok, "C16.5", cls.site, "Output fields use the set/clr-aware field action",
                       f"fields: {[ir.show(f) for f in fields]}")
+            if oa2 is not None:
+                # the action itself: one bit per pin -- its port shape, its members and its storage are unsigned(1)
+                from .c20 import member_table
+                try:
+                    member_table(rep, idx, oa2, {"data": ("Out", "unsigned(1)", None), "set": ("In", "unsigned(1)", None),
+                                                 "clr": ("In", "unsigned(1)", None),
+                                                 "port": ("In", "FieldPort.Signature(shape, access)", None)}, rule="C16.5")
+                except Exception as e:
+                    rep.unk("C16.5", oa2.site, "Output field action members", f"cannot decide: {type(e).__name__}: {e}")
+                oinit = oa2.method("__init__")
+                one = ir.norm(ir.parse("unsigned(1)"))
+                sup = [n for n in ast.walk(oinit.node) if isinstance(n, ast.Call) and ast.unparse(n.func) == "super().__init__"] if oinit else []
+                shp = None
+                for n in sup:
+                    for k_ in n.keywords:
+                        if k_.arg == "shape":
+                            shp = ir.norm(ir.from_ast(k_.value, {}))
+                    if shp is None and n.args:
+                        shp = ir.norm(ir.from_ast(n.args[0], {}))
+                rep.form(shp in (one, ('const', 1)), "C16.5", oa2.site, "the Output field action is one bit wide (port shape unsigned(1))",
+                         f"super().__init__(shape={ir.show(shp) if shp else None})",
+                         wrong=(f"the port is declared {ir.show(shp)}: one Output bit per pin is the register layout the property describes")
+                         if shp is not None and shp[0] in ('call', 'const') and shp not in (one, ('const', 1)) else None)
+                sts = [n for n in ast.walk(oinit.node) if isinstance(n, ast.Assign) and isinstance(n.value, ast.Call) and
+                       ast.unparse(n.value.func) == "Signal"] if oinit else []
+                for n in sts:
+                    a0 = ir.norm(ir.from_ast(n.value.args[0], {})) if n.value.args else ('const', 1)
+                    rep.form(a0 in (one, ('const', 1)), "C16.5", oa2.site, f"{ast.unparse(n.targets[0])} of the Output field action is one bit wide",
+                             f"created as {ast.unparse(n.value)[:60]}",
+                             wrong=(f"the storage is {ir.show(a0)} wide") if a0[0] in ('call', 'const') and a0 not in (one, ('const', 1)) else None)
         # one field per pin
         per_pin = any(isinstance(n, ast.ListComp) and ast.unparse(n.generators[0].iter) == "range(pin_count)"
                       for n in ast.walk(init.node))
